@@ -49,6 +49,7 @@ A2 = Obj("dataclass", "A2", (Fld("a", INT, has_default=True, default=1), Fld("b"
 FB2 = Obj("dataclass", "FB2", (Fld("inner", A2, flatten=True), Fld("z", INT, has_default=True, default=0)))
 COLOR = Enm("Color", (("R", 1), ("G", 2)))
 NAME = Enm("Name", (("A", "a"), ("B", "b")))
+SHADE = Enm("Shade", (("D", 1), ("L", 2)))
 USERID = NewT("UserId", INT)
 POS = NewT("Pos", INT, cons(min=0))
 
@@ -92,6 +93,20 @@ def type_pool(tier: str, python_objects: bool = False) -> List[TD]:
         Ann(Ann(FLOAT, cons(exc_min=0)), cons(exc_max=0)),
         Ann(Ann(Mapp(STR, INT), cons(max_props=0)), cons(min_props=0)),
     ]
+    # every mergeable keyword declared at two levels, tighter bound inside and outside (the compiled
+    # constraint is the conjunction: the tighter bound must win whatever the nesting)
+    pairs = [
+        (INT, "min", 0, 5), (INT, "max", 10, 5), (INT, "exc_min", 0, 5), (INT, "exc_max", 10, 5), (INT, "mult_of", 2, 3),
+        (FLOAT, "min", 0.5, 2.5), (FLOAT, "exc_max", 2.5, 1.5),
+        (STR, "min_len", 1, 3), (STR, "max_len", 3, 1),
+        (Coll("list", INT), "min_items", 1, 2), (Coll("list", INT), "max_items", 2, 1),
+        (Mapp(STR, INT), "min_props", 1, 2), (Mapp(STR, INT), "max_props", 2, 1),
+    ]
+    for base, kw, a, b in pairs:
+        for inner, outer in ((a, b), (b, a)):
+            tag = f"{kw}_{str(inner).replace('.', '_')}_{str(outer).replace('.', '_')}_{type(base).__name__}{getattr(base, 'name', '')}"
+            constrained.append(Ann(NewT("L2" + tag, base, cons(**{kw: inner})), cons(**{kw: outer})))
+            constrained.append(Ann(Ann(base, cons(**{kw: inner})), cons(**{kw: outer})))
     elems = [INT, STR, FLOAT, Opt(INT), Ann(INT, cons(min=0))]
     colls = [Coll(k, t) for k in ("list", "sequence", "collection", "mutableseq", "set", "abstractset", "frozenset", "tuplevar") for t in elems]
     colls += [
@@ -105,6 +120,23 @@ def type_pool(tier: str, python_objects: bool = False) -> List[TD]:
         Coll("list", Tup((INT, STR))),
         Coll("tuplevar", FLOAT),
         Coll("frozenset", STR),
+        # containers of unions mixing a check-only alternative with a converting one (the no-copy
+        # shortcut must not return the raw container)
+        Coll("list", Uni((INT, COLOR))),
+        # (a different enum than in Union[int, Color] above: typing caches List[Union[A, B]] and hands the
+        # same object back for List[Union[B, A]], so both orders of one pair cannot live in one process)
+        Coll("list", Uni((SHADE, INT))),
+        Coll("list", Uni((NAME, STR))),
+        Coll("list", Uni((INT, NAME))),
+        Mapp(STR, Uni((NAME, STR))),
+        Coll("list", Uni((BOOL, FLOAT))),
+        Coll("list", Uni((INT, A))),
+        Coll("list", Opt(COLOR)),
+        Coll("list", Opt(FLOAT)),
+        Coll("list", Uni((STR, Coll("list", FLOAT)))),
+        Mapp(STR, Uni((INT, COLOR))),
+        Mapp(STR, Opt(FLOAT)),
+        Mapp(STR, Uni((NONE, A))),
     ]
     tups = [Tup((INT, STR)), Tup((FLOAT,)), Tup((INT, Opt(STR), BOOL)), Tup((A, INT)), Tup((Coll("list", INT), STR))]
     maps = [
